@@ -418,6 +418,7 @@ def c13(tier, rep):
                               ([1, 18, 3, 4], 2), ([1, 19, 3, 5], 2), ([1, 21, 18, 3, 4], 2), ([1, 2, 3, 7, 17, 7, 3, 4], 2)],
            invariants=["Inv_C13"], label="docstring", no_free_text=False)
     E.menu(rep, M.DOCSTRING[:15], 3 if q else 4, max_errs=2, invariants=["Inv_C13"], label="docstring-any")
+    E.reuse_pass(rep, E.src_limits() + E.src_corpus() + E.src_limits(), "reuse")
     E.traces(rep, E.record_all(std_sources(tier, 300, 3000)), "corpus+gen+noisy")
 
 
